@@ -77,6 +77,23 @@ func configs(tier string) []config {
 			}
 		}
 	}
+	// n = 9, 10 (thorough: 11) for the strongly pruned families: the sizes at which table
+	// entries and k-subset ranks beyond those of the unpruned n <= 8 searches are used
+	big := []int{9, 10}
+	bigM := []int{1, 3}
+	if tier == "thorough" {
+		big = []int{10, 11}
+		bigM = []int{1, 2, 5}
+	}
+	for _, n := range big {
+		for _, p := range []int{0, 6, 3, 5, 7} {
+			for pl := 0; pl < 2; pl++ {
+				for _, m := range bigM {
+					cs = append(cs, config{n, m, p, pl})
+				}
+			}
+		}
+	}
 	if tier == "thorough" {
 		// n = 9: unpruned (count against A000088 + pairwise distinct is complete), and
 		// the strongly pruned families against the oracle's class sets
@@ -276,10 +293,10 @@ func main() {
 		Engine:   "shard-cluster",
 		Level:    "exploration",
 		Rule: "a case is one configuration (n, m, hereditary predicate, placement as preprune / prune / both): all m shard iterators are created and advanced by one consumer in a seeded interleaving (round-robin, one after another, tape-random) until all are exhausted (and must stay exhausted); every yielded value must be a well-formed graph on n vertices, the independent canonical codes of all yielded graphs must be pairwise distinct and their set must equal the independently generated set of classes satisfying the predicate (unpruned: additionally the count must equal A000088(n)). " +
-			"Enumerated: all (n <= 7, m <= 12) unpruned and with each of 8 listed predicates x 3 placements; n = 8 unpruned for m <= 8 and predicates for m in {1,2,3,5} (thorough: m <= 16 resp. 12; n = 9 unpruned for 7 values of m and the strongly pruned families). Random runs draw n <= 7, m <= 10 (one in six: m from {13,...,257}) and a tape-drawn hereditary predicate (listed, induced-H-free for a random H on 2-4 vertices, or a conjunction). Non-trivial = at least 4 graphs yielded; distinct = distinct fingerprints of the yielded code sequences.",
+			"Enumerated: all (n <= 7, m <= 12) unpruned and with each of 8 listed predicates x 3 placements; n = 8 unpruned for m <= 8 and predicates for m in {1,2,3,5} (thorough: m <= 16 resp. 12; n = 9 unpruned for 7 values of m); n = 9, 10 (thorough 10, 11) for the strongly pruned families triangle-free, bipartite, max-degree<=2, edges<=5, forest. Random runs draw n <= 7, m <= 10 (one in six: m from {13,...,257}) and a tape-drawn hereditary predicate (listed, induced-H-free for a random H on 2-4 vertices, or a conjunction). Non-trivial = at least 4 graphs yielded; distinct = distinct fingerprints of the yielded code sequences.",
 		Assumptions: []string{
 			"predicates are hereditary (closed under induced subgraphs) by construction",
-			"n <= 8 (9 in thorough for some families): a defect that needs more vertices is not reached",
+			"n <= 8 unpruned (9 in thorough), n <= 10 (11 in thorough) for strongly pruned families: a defect that needs more vertices is not reached",
 			"the IsoOracle (minimum adjacency string over invariant-respecting vertex orders) shares no code with mamba and reproduces A000088 and the triangle-free / bipartite / forest counts up to n = 8",
 		},
 		Real:  []string{"graph/search (All, WithPruning, Next, Value)", "graph canonical labelling, comb, itertools, disjoint as used by the search"},
